@@ -29,6 +29,7 @@ const prelude = `(set-option :produce-models true)
 (declare-fun rootOf (Addr) Int)
 (declare-fun idx (Slice Int) Addr)
 (assert (forall ((s Slice) (k Int)) (! (= (idx s k) (elem (sarr s) (+ (soff s) k))) :pattern ((idx s k)))))
+(assert (forall ((s Slice) (j Int)) (! (= (elem (sarr s) j) (idx s (- j (soff s)))) :pattern ((elem (sarr s) j)))))
 (assert (= (rootOf nil) (- 1)))
 (assert (forall ((i Int)) (! (= (rootOf (root i)) i) :pattern ((root i)))))
 (assert (forall ((p Addr) (f Int)) (! (= (rootOf (fld p f)) (rootOf p)) :pattern ((fld p f)))))
